@@ -16,6 +16,7 @@ import (
 	"github.com/dave/dst"
 	"github.com/dave/dst/decorator"
 	"github.com/dave/dst/decorator/resolver"
+	"github.com/dave/dst/decorator/resolver/goast"
 	"github.com/dave/dst/decorator/resolver/guess"
 	"github.com/dave/dst/decorator/resolver/simple"
 )
@@ -167,7 +168,9 @@ func c08Check(in c08Input) (key, what string) {
 	} else {
 		rr = guess.WithMap(names)
 	}
-	dec := decorator.NewDecoratorWithImports(token.NewFileSet(), "example.com/self", goastNew())
+	// an accurate identifier resolver: goast with the real package names (its default guesses the
+	// name from the path, which is wrong for e.g. math/rand/v2)
+	dec := decorator.NewDecoratorWithImports(token.NewFileSet(), "example.com/self", goast.WithResolver(guess.WithMap(names)))
 	var f *dst.File
 	var err error
 	if pm := safely(func() { f, err = dec.Parse(in.Src) }); pm != "" {
@@ -205,7 +208,7 @@ func c08Check(in c08Input) (key, what string) {
 		}
 		return k, "unedited decorate + import-managed restore changed the file:\n" + firstDiff(in.Src, out)
 	}
-	dec2 := decorator.NewDecoratorWithImports(token.NewFileSet(), "example.com/self", goastNew())
+	dec2 := decorator.NewDecoratorWithImports(token.NewFileSet(), "example.com/self", goast.WithResolver(guess.WithMap(names)))
 	f2, err := dec2.Parse(out)
 	if err != nil {
 		return "c08-redecorate", "the output does not decorate: " + err.Error()
